@@ -25,7 +25,30 @@ for line in p.stdout:
         res[ev['Package'] + '::' + ev['Test']] = ev['Action']
 p.wait()
 notpass = sorted(t for t in stable if res.get(t) != 'pass')
-summary = {'baseline_tests': len(stable), 'passed_of_baseline': len(stable) - len(notpass), 'not_passed': notpass[:50]}
+first_notpass = list(notpass)
+# Load flakiness (timing-based tests on a busy machine): re-run the top-level tests of the
+# not-passed entries on their own, up to 3 times; a test that passes once is not blamed.
+for attempt in range(3):
+    if not notpass:
+        break
+    tops = sorted({(t.split('::')[0], t.split('::')[1].split('/')[0]) for t in notpass})
+    for pkg, top in tops:
+        q = subprocess.Popen(['go', 'test', '-json', '-vet=off', '-count=1', '-timeout', '25m', '-run', '^' + top + '$', pkg],
+                             cwd=os.path.join(wt, 'go'), env=env, stdout=subprocess.PIPE, stderr=subprocess.DEVNULL, text=True)
+        r2 = {}
+        for line in q.stdout:
+            try:
+                ev = json.loads(line)
+            except Exception:
+                continue
+            if ev.get('Test') and ev.get('Action') in ('pass', 'fail', 'skip'):
+                r2[ev['Package'] + '::' + ev['Test']] = ev['Action']
+        q.wait()
+        for t, a in r2.items():
+            if a == 'pass':
+                res[t] = 'pass'
+    notpass = sorted(t for t in stable if res.get(t) != 'pass')
+summary = {'baseline_tests': len(stable), 'passed_of_baseline': len(stable) - len(notpass), 'not_passed': notpass[:50], 'not_passed_in_first_run_but_passed_on_isolated_rerun': [t for t in first_notpass if t not in notpass][:80]}
 print(json.dumps(summary, indent=1))
 if out:
     json.dump(summary, open(out, 'w'), indent=1)
